@@ -11,20 +11,22 @@ Definition vinv (v : vec) (l : list V) : Prop :=
 Lemma vinv_empty : vinv vec_empty [].
 Proof. repeat split; cbn; lia. Qed.
 
-Section WithElemSize.
+Section WithElem.
 Variable esz : N.
+Variable veq : V -> V -> bool.
 
 (* ---- _ensure_capacity *)
 Definition grown (nb c : nat) (v : vec) (l : list V) : vec :=
   if Nat.leb c (v_cap v) then v else mk_vec nb (slots l (2 * c)) (length l) (2 * c).
 Definition grown_nb (nb c : nat) (v : vec) : nat := if Nat.leb c (v_cap v) then nb else S nb.
-Definition grow_evs (nb c : nat) (v : vec) (l : list V) : list ev :=
+(* al = the allocator instance of the vector, nb = the name of the new block *)
+Definition grow_evs (al nb c : nat) (v : vec) (l : list V) : list ev :=
   if Nat.leb c (v_cap v) then [] else
   EAlloc nb (esz * N.of_nat (2 * c)) :: xfer_evs (heap_nm (v_blk v)) (heap_nm nb) 0 (length l)
-    ++ destroy_evs (heap_nm (v_blk v)) 0 (length l) ++ free_ev (v_blk v).
+    ++ destroy_evs (heap_nm (v_blk v)) 0 (length l) ++ free_ev al (v_blk v).
 
-Lemma ensure_capacity_eq nb c v l : vinv v l ->
-  ensure_capacity esz nb c v = Ok (grown nb c v l, grown_nb nb c v, grow_evs nb c v l).
+Lemma ensure_capacity_eq al nb c v l : vinv v l ->
+  ensure_capacity esz al nb c v = Ok (grown (enc al nb) c v l, grown_nb nb c v, grow_evs al (enc al nb) c v l).
 Proof.
   intros (Hs & Hc & Hcells). unfold ensure_capacity, grown, grown_nb, grow_evs.
   destruct (Nat.leb c (v_cap v)) eqn:E; [reflexivity|]. apply Nat.leb_gt in E.
@@ -46,14 +48,14 @@ Definition pushed (nb : nat) (x : V) (v : vec) (l : list V) : vec :=
   let g := grown nb (length l + 1) v l in
   mk_vec (v_blk g) (slots (l ++ [x]) (v_cap g)) (S (length l)) (v_cap g).
 
-Lemma push_eq nb x v l : vinv v l ->
-  push esz nb x v = Ok (pushed nb x v l, grown_nb nb (length l + 1) v,
-                        grow_evs nb (length l + 1) v l ++ [EConstruct (v_blk (grown nb (length l + 1) v l), length l)]).
+Lemma push_eq al nb x v l : vinv v l ->
+  push esz al nb x v = Ok (pushed (enc al nb) x v l, grown_nb nb (length l + 1) v,
+                        grow_evs al (enc al nb) (length l + 1) v l ++ [EConstruct (v_blk (grown (enc al nb) (length l + 1) v l), length l)]).
 Proof.
   intros H. unfold push, pushed. destruct H as (Hs & Hc & Hcells) eqn:HH. clear HH.
-  rewrite Hs. rewrite (ensure_capacity_eq nb (length l + 1) v l) by (repeat split; assumption). cbn [bind].
-  destruct (grown_inv nb (length l + 1) v l) as ((Gs & Gc & Gcells) & Gcap); [repeat split; assumption|].
-  set (g := grown nb (length l + 1) v l) in *.
+  rewrite Hs. rewrite (ensure_capacity_eq al nb (length l + 1) v l) by (repeat split; assumption). cbn [bind].
+  destruct (grown_inv (enc al nb) (length l + 1) v l) as ((Gs & Gc & Gcells) & Gcap); [repeat split; assumption|].
+  set (g := grown (enc al nb) (length l + 1) v l) in *.
   rewrite Gcells, Gs. rewrite slots_split by lia.
   rewrite construct_mid'. cbn [bind]. rewrite slots_snoc by lia. reflexivity.
 Qed.
@@ -91,13 +93,13 @@ Definition resize_evs (nb n : nat) (v : vec) (l : list V) : list ev :=
 Definition resized (nb n : nat) (x : V) (v : vec) (l : list V) : vec :=
   let g := grown nb n v l in mk_vec (v_blk g) (slots (resized_list n x l) (v_cap g)) n (v_cap g).
 
-Lemma resize_eq nb n x v l : vinv v l ->
-  resize esz nb n x v = Ok (resized nb n x v l, grown_nb nb n v, grow_evs nb n v l ++ resize_evs nb n v l).
+Lemma resize_eq al nb n x v l : vinv v l ->
+  resize esz al nb n x v = Ok (resized (enc al nb) n x v l, grown_nb nb n v, grow_evs al (enc al nb) n v l ++ resize_evs (enc al nb) n v l).
 Proof.
   intros H. unfold resize, resized, resize_evs, resized_list.
-  rewrite (ensure_capacity_eq nb n v l H). cbn [bind].
-  destruct (grown_inv nb n v l H) as ((Gs & Gc & Gcells) & Gcap).
-  set (g := grown nb n v l) in *. rewrite Gs, Gcells.
+  rewrite (ensure_capacity_eq al nb n v l H). cbn [bind].
+  destruct (grown_inv (enc al nb) n v l H) as ((Gs & Gc & Gcells) & Gcap).
+  set (g := grown (enc al nb) n v l) in *. rewrite Gs, Gcells.
   destruct (Nat.ltb n (length l)) eqn:E.
   - apply Nat.ltb_lt in E.
     assert (Hsplit : slots l (v_cap g) = map Some (firstn n l) ++ map Some (skipn n l) ++ repeat None (v_cap g - length l)).
@@ -145,8 +147,8 @@ Qed.
 Lemma cleared_inv v : vinv (mk_vec (v_blk v) (slots [] (v_cap v)) 0 (v_cap v)) [].
 Proof. repeat split; cbn; lia. Qed.
 
-Lemma destruct_eq v l : vinv v l ->
-  destruct v = Ok (destroy_evs (heap_nm (v_blk v)) 0 (length l) ++ free_ev (v_blk v)).
+Lemma destruct_eq al v l : vinv v l ->
+  destruct al v = Ok (destroy_evs (heap_nm (v_blk v)) 0 (length l) ++ free_ev al (v_blk v)).
 Proof.
   intros (Hs & Hc & Hcells). unfold destruct. rewrite Hs, Hcells.
   pose proof (destroy_loop_gen l (heap_nm (v_blk v)) [] (repeat None (v_cap v - length l))) as D.
@@ -161,18 +163,18 @@ Definition copy_evs (nb : nat) (o : vec) (l : list V) : list ev :=
   (if Nat.leb (length l) 0 then [] else [EAlloc nb (esz * N.of_nat (2 * length l))])
   ++ xfer_evs (heap_nm (v_blk o)) (heap_nm (if Nat.leb (length l) 0 then 0 else nb)) 0 (length l).
 
-Lemma copy_ctor_eq nb o l : vinv o l ->
-  copy_ctor esz nb o = Ok (copied nb l, copied_nb nb l, copy_evs nb o l).
+Lemma copy_ctor_eq al nb o l : vinv o l ->
+  copy_ctor esz al nb o = Ok (copied (enc al nb) l, copied_nb nb l, copy_evs (enc al nb) o l).
 Proof.
   intros (Hs & Hc & Hcells). unfold copy_ctor, copied, copied_nb, copy_evs.
-  rewrite Hs. rewrite (ensure_capacity_eq nb (length l) vec_empty [] vinv_empty). cbn [bind].
+  rewrite Hs. rewrite (ensure_capacity_eq al nb (length l) vec_empty [] vinv_empty). cbn [bind].
   unfold grown, grown_nb, grow_evs. cbn [v_cap vec_empty].
   destruct (Nat.leb (length l) 0) eqn:E.
   - apply Nat.leb_le in E. assert (length l = 0) as L0 by lia. rewrite L0.
     cbn. reflexivity.
   - apply Nat.leb_gt in E. cbn [v_cells v_blk v_cap length]. rewrite Hcells. unfold slots at 1.
     rewrite slots_nil. rewrite xfer_loop_slots by lia. cbn [bind].
-    cbn [xfer_evs destroy_evs seq flat_map map free_ev vec_empty v_blk Nat.eqb app]. reflexivity.
+    unfold free_ev. cbn [xfer_evs destroy_evs seq flat_map map vec_empty v_blk Nat.eqb app]. reflexivity.
 Qed.
 Lemma copied_inv nb l : vinv (copied nb l) l.
 Proof.
@@ -204,11 +206,8 @@ Proof.
   - apply Nat.ltb_ge in E. now apply rd_slots_ge.
 Qed.
 
-Lemma list_eqb_length a b : list_eqb a b = true -> length a = length b.
-Proof. intros H. apply list_eqb_eq in H. now subst. Qed.
-
 Lemma equal_eq this other lt lo : vinv this lt -> vinv other lo ->
-  exists e, equal this other = Ok (list_eqb lo lt, e) /\
+  exists e, equal veq this other = Ok (list_eqb veq lo lt, e) /\
             use_only (heap_nm (v_blk other)) (heap_nm (v_blk this)) 0 (length lt) e.
 Proof.
   intros (Hs & Hc & Hcells) (Os & Oc & Ocells). unfold equal. rewrite Hs, Os.
@@ -218,11 +217,11 @@ Proof.
     generalize (repeat (@None V) (v_cap other - length lo)) as qa.
     generalize (repeat (@None V) (v_cap this - length lt)) as qb. intros qb qa.
     rewrite <- E.
-    destruct (eq_loop_gen lo lt (heap_nm (v_blk other)) (heap_nm (v_blk this)) [] qa [] qb E eq_refl) as (e & He & Hu).
+    destruct (eq_loop_gen veq lo lt (heap_nm (v_blk other)) (heap_nm (v_blk this)) [] qa [] qb E eq_refl) as (e & He & Hu).
     cbn [app length Nat.add] in He, Hu.
     exists e; split; assumption.
   - apply Nat.eqb_neq in E. exists []. split; [|constructor].
-    destruct (list_eqb lo lt) eqn:L; [apply list_eqb_length in L; lia | reflexivity].
+    destruct (list_eqb veq lo lt) eqn:L; [apply list_eqb_length in L; lia | reflexivity].
 Qed.
 
 Lemma iterate_eq v l : vinv v l -> iterate v = map Some l.
@@ -250,7 +249,7 @@ Definition ref_step (rs : rstate) (o : vop) : rstate * out :=
   | VFront r => (rs, OVal (hd 0%N (rs r)))
   | VBack r => (rs, OVal (last (rs r) 0%N))
   | VIndex r i => (rs, OVal (nth i (rs r) 0%N))
-  | VEq r s => (rs, OBool (list_eqb (rs r) (rs s)))
+  | VEq r s => (rs, OBool (list_eqb veq (rs s) (rs r)))    (* other[i] == this[i], for every i *)
   | VAssign r s => (set_reg rs r (rs s), OUnit)
   | VMoveAssign r s => (set_reg (set_reg rs s []) r (rs s), OUnit)
   | VCopyCtor r s => (if Nat.eqb r s then rs else set_reg rs r (rs s), OUnit)
@@ -271,30 +270,23 @@ Fixpoint ref_ok (rs : rstate) (ops : list vop) : Prop :=
 
 Definition vrel (st : vst) (rs : rstate) : Prop := forall r, vinv (regs st r) (rs r).
 
-Lemma vrel_set rg nb nb' rs r v l : vrel (mk_vst rg nb) rs -> vinv v l ->
-  vrel (mk_vst (set_reg rg r v) nb') (set_reg rs r l).
+Lemma vrel_set rg al al' nb nb' rs r v l : vrel (mk_vst rg al nb) rs -> vinv v l ->
+  vrel (mk_vst (set_reg rg r v) al' nb') (set_reg rs r l).
 Proof. intros H Hv k. cbn [regs]. unfold set_reg. destruct (Nat.eqb k r); [exact Hv | apply (H k)]. Qed.
 
-Lemma list_eqb_sym a b : list_eqb a b = list_eqb b a.
-Proof.
-  destruct (list_eqb a b) eqn:E1, (list_eqb b a) eqn:E2; auto.
-  - apply list_eqb_eq in E1. subst. assert (list_eqb b b = true) by now apply list_eqb_eq. congruence.
-  - apply list_eqb_eq in E2. subst. assert (list_eqb a a = true) by now apply list_eqb_eq. congruence.
-Qed.
-
 Lemma vstep_refines st rs o : vrel st rs -> ref_pre rs o ->
-  exists st' e, vstep esz st o = Ok (st', snd (ref_step rs o), e) /\ vrel st' (fst (ref_step rs o)).
+  exists st' e, vstep esz veq st o = Ok (st', snd (ref_step rs o), e) /\ vrel st' (fst (ref_step rs o)).
 Proof.
-  intros R P. destruct st as [rg nb]. pose proof R as R0. unfold vrel in R0. cbn [regs] in R0.
-  destruct o as [r x|r x|r x|r|r n x|r|r|r|r i|r s|r s|r s|r s|r s|r s]; cbn [vstep regs nextb ref_step fst snd ref_pre] in *.
-  1-3: rewrite (push_eq nb x (rg r) (rs r) (R0 r)); cbn [bind]; do 2 eexists; split; [reflexivity|];
+  intros R P. destruct st as [rg al nb]. pose proof R as R0. unfold vrel in R0. cbn [regs] in R0.
+  destruct o as [r x|r x|r x|r|r n x|r|r|r|r i|r s|r s|r s|r s|r s|r s]; cbn [vstep regs als nextb ref_step fst snd ref_pre] in *.
+  1-3: rewrite (push_eq (al r) nb x (rg r) (rs r) (R0 r)); cbn [bind]; do 2 eexists; split; [reflexivity|];
        eapply vrel_set; [exact R | apply pushed_inv, R0].
   - (* pop *)
     destruct (exists_last P) as (l & x & E). pose proof (R0 r) as Hr. rewrite E in Hr.
     rewrite (pop_eq (rg r) l x Hr). cbn [bind]. rewrite E, last_last, removelast_last.
     do 2 eexists; split; [reflexivity|]. eapply vrel_set; [exact R | eapply popped_inv; exact Hr].
   - (* resize *)
-    rewrite (resize_eq nb n x (rg r) (rs r) (R0 r)). cbn [bind].
+    rewrite (resize_eq (al r) nb n x (rg r) (rs r) (R0 r)). cbn [bind].
     do 2 eexists; split; [reflexivity|]. eapply vrel_set; [exact R | apply resized_inv, R0].
   - (* clear *)
     rewrite (clear_eq (rg r) (rs r) (R0 r)). cbn [bind].
@@ -311,38 +303,38 @@ Proof.
     do 2 eexists; split; [reflexivity | exact R].
   - (* == *)
     destruct (equal_eq (rg r) (rg s) (rs r) (rs s) (R0 r) (R0 s)) as (e & He & _).
-    rewrite He. cbn [bind]. rewrite (list_eqb_sym (rs r) (rs s)).
+    rewrite He. cbn [bind].
     do 2 eexists; split; [reflexivity | exact R].
   - (* copy assignment *)
-    rewrite (copy_ctor_eq nb (rg s) (rs s) (R0 s)). cbn [bind].
-    rewrite (destruct_eq (rg r) (rs r) (R0 r)). cbn [bind].
+    rewrite (copy_ctor_eq (al s) nb (rg s) (rs s) (R0 s)). cbn [bind].
+    rewrite (destruct_eq (al r) (rg r) (rs r) (R0 r)). cbn [bind].
     do 2 eexists; split; [reflexivity|]. eapply vrel_set; [exact R | apply copied_inv].
   - (* move assignment *)
-    assert (R1 : vrel (mk_vst (set_reg rg s vec_empty) nb) (set_reg rs s [])) by (eapply vrel_set; [exact R | apply vinv_empty]).
+    assert (R1 : vrel (mk_vst (set_reg rg s vec_empty) al nb) (set_reg rs s [])) by (eapply vrel_set; [exact R | apply vinv_empty]).
     pose proof (R1 r) as Hr. cbn [regs] in Hr.
-    rewrite (destruct_eq _ _ Hr). cbn [bind].
+    rewrite (destruct_eq (al r) _ _ Hr). cbn [bind].
     do 2 eexists; split; [reflexivity|]. eapply vrel_set; [exact R1 | apply R0].
   - (* copy construction *)
     destruct (Nat.eqb r s) eqn:E; [do 2 eexists; split; [reflexivity | exact R]|].
-    rewrite (destruct_eq (rg r) (rs r) (R0 r)). cbn [bind].
-    rewrite (copy_ctor_eq nb (rg s) (rs s) (R0 s)). cbn [bind].
+    rewrite (destruct_eq (al r) (rg r) (rs r) (R0 r)). cbn [bind].
+    rewrite (copy_ctor_eq (al s) nb (rg s) (rs s) (R0 s)). cbn [bind].
     do 2 eexists; split; [reflexivity|]. eapply vrel_set; [exact R | apply copied_inv].
   - (* move construction *)
     destruct (Nat.eqb r s) eqn:E; [do 2 eexists; split; [reflexivity | exact R]|].
-    rewrite (destruct_eq (rg r) (rs r) (R0 r)). cbn [bind].
+    rewrite (destruct_eq (al r) (rg r) (rs r) (R0 r)). cbn [bind].
     do 2 eexists; split; [reflexivity|].
-    eapply vrel_set with (nb := nb); [eapply vrel_set with (nb := nb) (nb' := nb); [exact R | apply R0] | apply vinv_empty].
+    eapply vrel_set with (al := al) (nb := nb); [eapply vrel_set with (al := al) (al' := al) (nb := nb) (nb' := nb); [exact R | apply R0] | apply vinv_empty].
   - (* swap *)
     do 2 eexists; split; [reflexivity|].
-    eapply vrel_set with (nb := nb); [eapply vrel_set with (nb := nb) (nb' := nb); [exact R | apply R0] | apply R0].
+    eapply vrel_set with (al := al) (nb := nb); [eapply vrel_set with (al := al) (al' := al) (nb := nb) (nb' := nb); [exact R | apply R0] | apply R0].
 Qed.
 
 (* outside the preconditions the model reports UB: nothing is made true by totalisation *)
-Lemma vstep_pre_exact st rs o : vrel st rs -> ~ ref_pre rs o -> vstep esz st o = UB.
+Lemma vstep_pre_exact st rs o : vrel st rs -> ~ ref_pre rs o -> vstep esz veq st o = UB.
 Proof.
-  intros R P. destruct st as [rg nb]. pose proof R as R0. unfold vrel in R0. cbn [regs] in R0.
+  intros R P. destruct st as [rg al nb]. pose proof R as R0. unfold vrel in R0. cbn [regs] in R0.
   destruct o as [r x|r x|r x|r|r n x|r|r|r|r i|r s|r s|r s|r s|r s|r s]; cbn [ref_pre] in P; try (exfalso; apply P; exact I);
-    cbn [vstep regs nextb].
+    cbn [vstep regs als nextb].
   - assert (rs r = []) as E by (destruct (rs r); [reflexivity | exfalso; apply P; congruence]).
     pose proof (R0 r) as Hr. rewrite E in Hr. now rewrite (pop_empty_ub _ Hr).
   - assert (rs r = []) as E by (destruct (rs r); [reflexivity | exfalso; apply P; congruence]).
@@ -353,7 +345,7 @@ Proof.
 Qed.
 
 Lemma vrun_refines : forall ops st rs, vrel st rs -> ref_ok rs ops ->
-  exists st' e, vrun esz st ops = Ok (st', snd (ref_run rs ops), e) /\ vrel st' (fst (ref_run rs ops)).
+  exists st' e, vrun esz veq st ops = Ok (st', snd (ref_run rs ops), e) /\ vrel st' (fst (ref_run rs ops)).
 Proof.
   induction ops as [|o ops IH]; intros st rs R K.
   - do 2 eexists; split; [reflexivity | exact R].
@@ -386,4 +378,4 @@ Proof.
   - rewrite Hcells. now apply slots_length.
 Qed.
 
-End WithElemSize.
+End WithElem.
